@@ -11,7 +11,7 @@ MULTI = ["MultiCCA"]
 
 
 def draw_system(rng, seed: int, prop: str, *, families=("single",) * 6 + ("cross",) * 3 + ("multi",),
-                lazy_prob=0.25, names=None) -> tuple:
+                lazy_prob=0.25, dask_eager_prob=0.15, names=None) -> tuple:
     fam = rng.choice(list(families))
     name = rng.choice({"single": SINGLE, "cross": CROSS, "multi": MULTI}[fam])
     if names:
@@ -20,15 +20,18 @@ def draw_system(rng, seed: int, prop: str, *, families=("single",) * 6 + ("cross
     spec = models.SPECS[name]
     # SparsePCA's dask route is broken in several ways (known findings under C12); it is exercised there
     lazy = spec.dask_ok and spec.name != "SparsePCA" and rng.random() < lazy_prob
-    cfg: dict = {"property": prop, "seed": seed, "spec": name, "lazy": lazy}
-    lay = dict(max_features=12, complex_=spec.complex_input, allow_nan=not lazy,
-               allow_mi=not lazy or rng.random() < 0.3)
+    # dask-backed data fitted *eagerly* (compute=True): fit itself then issues a dozen scheduler calls, which is
+    # where a task failure can interrupt a fit half-way (C14's fit_fault operation)
+    dask_eager = spec.dask_ok and spec.name != "SparsePCA" and not lazy and rng.random() < dask_eager_prob
+    cfg: dict = {"property": prop, "seed": seed, "spec": name, "lazy": lazy, "dask_eager": dask_eager}
+    lay = dict(max_features=12, complex_=spec.complex_input, allow_nan=not (lazy or dask_eager),
+               allow_mi=not (lazy or dask_eager) or rng.random() < 0.3)
     if spec.time_ordered:
         lay["allow_nan"] = False
     # "wide" runs (15 %): more features than n_modes + 10, i.e. outside the regime in which the randomised
     # solvers are exact whatever their seed - the only regime in which the *handling of seeds* (forwarding,
     # re-use across fits, ambient RNG) can show. Same backend on both sides, so no solver tolerance is needed.
-    wide = (not lazy) and rng.random() < 0.22 and name not in ("MultiCCA",)
+    wide = (not lazy) and (not dask_eager) and rng.random() < 0.22 and name not in ("MultiCCA",)
     cfg["wide"] = wide
     if wide:
         lay["max_features"] = 30
@@ -40,7 +43,7 @@ def draw_system(rng, seed: int, prop: str, *, families=("single",) * 6 + ("cross
     bad: dict = {}
 
     def chunked(d):
-        if lazy:
+        if lazy or dask_eager:
             d = copy.deepcopy(d)
             d["chunks"] = space.draw_chunks(rng)
             if rng.random() < 0.6:
@@ -101,7 +104,7 @@ def draw_system(rng, seed: int, prop: str, *, families=("single",) * 6 + ("cross
             bad["F1"].append("NN0")
         # parameters must be valid for every data set of the pool: draw against the smallest
         small = min((descs["D0"], descs["D1"], descs["D2"]), key=models._rank)
-        params = models.draw_single_params(rng, spec, small, lazy=lazy if lazy else None)
+        params = models.draw_single_params(rng, spec, small, lazy=True if lazy else (False if dask_eager else None))
         if not all(models._has_lat(descs[k]) for k in ("D0", "D1", "D2")):
             params["use_coslat"] = False
         if any(descs[k].get("nan_features") or descs[k].get("nan_samples") for k in ("D0", "D1", "D2")):
@@ -159,7 +162,12 @@ def draw_system(rng, seed: int, prop: str, *, families=("single",) * 6 + ("cross
         bad = {"F0": [["NX2", "NY2"]], "F1": [["NX2", "NY2"]], "F2": [["NX0", "NY0"]]}
         sx = min((descs["X0"], descs["X1"], descs["X2"]), key=models._rank)
         sy = min((descs["Y0"], descs["Y1"], descs["Y2"]), key=models._rank)
-        params = models.draw_cross_params(rng, spec, sx, sy, lazy=lazy if lazy else None)
+        params = models.draw_cross_params(rng, spec, sx, sy, lazy=True if lazy else (False if dask_eager else None))
+        if dask_eager:
+            # a fractional n_pca_modes needs the spectrum: documented ValueError for dask input
+            npm = params["n_pca_modes"]
+            params["n_pca_modes"] = [("all" if isinstance(x, float) else x) for x in npm] if isinstance(npm, list) \
+                else ("all" if isinstance(npm, float) else npm)
         params["use_coslat"] = [bool(params["use_coslat"][0]) and all(models._has_lat(descs[k]) for k in ("X0", "X1", "X2")),
                                 bool(params["use_coslat"][1]) and all(models._has_lat(descs[k]) for k in ("Y0", "Y1", "Y2"))]
         if any(descs[k].get("nan_features") or descs[k].get("nan_samples") for k in descs):
@@ -219,12 +227,16 @@ def draw_system(rng, seed: int, prop: str, *, families=("single",) * 6 + ("cross
             rk = [min(models._rank(descs[k]) for k in ks) for ks in (("X0", "X1", "X2"), ("Y0", "Y1", "Y2"))]
             params["n_pca_modes"] = ["all", "all"]
             params["n_modes"] = max(2, min(5, rk[0], rk[1]))
-    cfg["rot_params"] = models.draw_rotator_params(rng, params, lazy=lazy if lazy else None) if spec.rotator else None
+    cfg["rot_params"] = models.draw_rotator_params(rng, params, lazy=True if lazy else (False if dask_eager else None)) if spec.rotator else None
+    if dask_eager and cfg["rot_params"] and fam == "cross":
+        # an eager rotation of loadings that are still lazy (cross-set PCA / whitener matrices are never computed by
+        # fit) evaluates a growing graph per iteration: bounded; "did not converge" is not judged
+        cfg["rot_params"]["max_iter"] = rng.choice([10, 15])
     # (bootstrap members are reproducible "to solver accuracy" only - C20 - so they stay in the exact regime)
     # ... and a resample of few samples is rank-deficient around the requested mode count: its trailing modes are
     # then decided by the inner (unseeded) solver's random sketch, so the bootstrapper needs enough samples
     enough = name == "EOF" and all(gen.n_samples_total(descs[k]) >= 4 * int(params["n_modes"]) + 4 for k in ("D0", "D1", "D2"))
-    cfg["boot_params"] = {"n_bootstraps": rng.randint(2, 4), "seed": rng.randrange(1000)} if name == "EOF" and not lazy and not wide and enough else None
+    cfg["boot_params"] = {"n_bootstraps": rng.randint(2, 4), "seed": rng.randrange(1000)} if name == "EOF" and not lazy and not dask_eager and not wide and enough else None
     cfg["sched"] = sched.Config(W=rng.choice([1, 1, 2, 3, 4, 8]), reexec=rng.choice([0, 0, 0.05, 0.15]),
                                 transient=rng.choice([0, 0, 0.05]), stall=rng.choice([0, 0.1]),
                                 purity=1.0).to_json()
